@@ -360,6 +360,15 @@ class SeriesOps:
                 items = pos[0].items if isinstance(pos[0], PyTuple) else pos[0]
                 if all(isinstance(x, str) for x in items):
                     return obj.join(items)
+                # sep.join of a concrete list of string-valued terms (f-strings with symbolic holes): the concatenation with separators
+                stringy = lambda x: isinstance(x, str) or (isinstance(x, tuple) and x and x[0] in ("fstr", "strcat")) or (T.is_const(x) and isinstance(x[1], str))
+                if items and all(stringy(x) for x in items) and not any(isinstance(x, Each) for x in items):
+                    parts = []
+                    for i, x in enumerate(items):
+                        if i:
+                            parts.append(T.C(obj))
+                        parts.append(T.C(x) if isinstance(x, str) else x)
+                    return ("fstr", tuple(parts))
             try:
                 if all(isinstance(p, (str, int)) for p in pos):
                     if name in ("startswith", "endswith", "lower", "upper", "strip", "split", "replace", "find", "rstrip", "lstrip", "format", "join", "isdigit"):
